@@ -67,6 +67,7 @@ def make_data(p):
 
 
 def run_fit(p):
+    import torch
     from xrfm.rfm_src import RFM
     X, y, Xv, yv = make_data(p)
     maximize = bool(p.get('maximize'))
@@ -82,6 +83,12 @@ def run_fit(p):
             calls['i'] += 1
             return {'accuracy': 1.0 - 0.1 * abs(i - peak)}
         model._compute_validation_metrics = scripted
+    if p.get('refit') and not maximize:
+        # object history: the same RFM was fitted before (other data of the same shape) and learned a feature matrix
+        g0 = torch.Generator().manual_seed(p['seed'] + 11)
+        X0 = torch.randn(X.shape, generator=g0, dtype=X.dtype)
+        y0 = torch.tanh(X0[:, :1] * 2.0).expand(-1, y.shape[1]).contiguous() + 0.05 * torch.randn(y.shape, generator=g0, dtype=y.dtype)
+        model.fit((X0, y0), (Xv, yv), iters=max(1, p['iters']), reg=p['reg'], verbose=False, early_stop_rfm=False)
     rec = AgopRec(model)
     Ms = model.fit((X, y), (Xv, yv), iters=p['iters'], reg=p['reg'], verbose=False, center_grads=p['center'],
                    M_batch_size=p['batch'], return_Ms=True, get_agop_best_model=True,
@@ -274,10 +281,13 @@ def execute_case(p, drv):
     # ---- final state ---------------------------------------------------------------------------------------------------------
     if model.M is not None:
         spectral_oracle(res, model.M, use_sqrtM, 'model.M after fit')
-        if use_sqrtM and model.sqrtM is not None:
-            R = model.sqrtM
+    if use_sqrtM and model.sqrtM is not None:
+        R = model.sqrtM
+        # `M is None` denotes the identity (first iterate selected): the stored root must then be the identity's root
+        Mref = model.M if model.M is not None else (torch.ones_like(R) if R.dim() == 1 else torch.eye(R.shape[0], dtype=R.dtype))
+        if True:
             sq = R @ R if R.dim() == 2 else R * R
-            e2 = float((sq - model.M).abs().max())
+            e2 = float((sq - Mref).abs().max())
             if e2 > 1e-7:
                 res['failures'].append({'signature': 'C14:root-does-not-square-back', 'detail':
                                         f'after fit: max |sqrtM·sqrtM − M| = {e2:.3e} (stale or unnormalised root)'})
@@ -365,7 +375,7 @@ def gen_cases(r, n_cases):
                       'bandwidth_mode': 'adaptive' if adaptive else 'constant',
                       'vary_batch': fam != 'center-grads-single-batch', 'seed': r.randint(0, 2 ** 31 - 1),
                       'maximize': fam == 'leaf-fits' and t % 3 == 1,
-                      'yscale': r.choice([1.0, 1.0, 1.0, 1.0, 1e-6, 1e-4, 1e3, 1e6])})
+                      'yscale': r.choice([1.0, 1.0, 1.0, 1.0, 1e-6, 1e-4, 1e3, 1e6]), 'refit': t % 5 == 3})
         if cases[-1]['maximize']:
             cases[-1]['return_best'] = True
             cases[-1]['iters'] = max(2, cases[-1]['iters'])
